@@ -215,22 +215,6 @@ structure TextLib.Lawful (lib : TextLib F) : Prop where
       isFinite y = true ∧ lib.fmtFloat pos y = lib.fmtFloat pos x ∧ SnapFix scale y
 
 mutual
-/-- `str.strip` leaves every enum member name of the tree alone (no leading/trailing white space) -/
-def NamesStripped (lib : TextLib F) : DType F → Prop
-  | .enum ms => ∀ m ∈ ms, lib.strip m.1 = m.1
-  | .array e _ _ => NamesStripped lib e
-  | .tuple es => NamesStrippedList lib es
-  | .struct ms _ _ => NamesStrippedFields lib ms
-  | _ => True
-def NamesStrippedList (lib : TextLib F) : List (DType F) → Prop
-  | [] => True
-  | t :: ts => NamesStripped lib t ∧ NamesStrippedList lib ts
-def NamesStrippedFields (lib : TextLib F) : List (String × DType F) → Prop
-  | [] => True
-  | (_, t) :: ts => NamesStripped lib t ∧ NamesStrippedFields lib ts
-end
-
-mutual
 /-- every struct of a *node-side* type (`client = false`) is given with all its members: `from_string`
 converts with `__call__`, which asks for the optional members too unless the type is a client's -/
 def TextComplete : DType F → PVal F → Prop
